@@ -19,6 +19,36 @@ CLAIMS = {
     note="Trusted: vstd HashMap model + specs for HashMap::get_mut and entry().or_insert* (specs/prelude/hashmap_ext.rs), RwLock elision (single writer), bincode::deserialize as an arbitrary Result, &str.into()/Bytes::from_static stubs. Stated assumption: current_segment < u64::MAX (needs 2^64 rollovers). Counterexamples on violation come from replay/dw_shim (real metadata.rs compiled against a serde_json-backed bincode shim, exhaustive histories up to length 4).",
     technique="contract-based deductive verification (Verus/Z3): inductive data-structure invariant as pre/postcondition of the extracted real function; native replay of counterexamples",
     design="4/C18"),
+ "C15": dict(
+    level="proof",
+    text="Verus discharges contracts on the real increment/decrement_topic_entry_count (exact whole-map update, saturating, other topics untouched), append_for_topic / batch_append_for_topic (Ok: +1 / +batch.len(); Err on any path: unchanged), the whole of read_next (a consuming read that returns an entry decrements by exactly one; peeks, empty polls and read errors change nothing) and the per-topic body of the recount after recovery (= total entries minus entries before the persisted cursor, for both cursor encodings). All topic names, deltas, chain lengths and cursor values are symbolic, so every operation preserves count = appended - consumed for any history.",
+    note="Trusted: RwLock elision (single thread), HashMap entry()/get specs, String view injectivity, assumed frame contracts of mark_topic_dirty / get_or_create_writer / Writer::{write,batch_write} (they cannot name the counter field), Block::read and count_entries_in_block_up_to contracts (unit block_rw), A-ARITH. The batch-read decrement site is covered only through the parse-region clause entries == entries_parsed; the std HashMap iteration of the recount loop is outside the unit. Counterexamples: scenario family replay/core on the real engine.",
+    technique="contract-based deductive verification (Verus/Z3) of extracted real functions with whole-map postconditions; native replay",
+    design="4/C15"),
+ "C09": dict(
+    level="proof",
+    text="Verus proves should_persist's policy on the real code (StrictlyAtOnce always persists; AtLeastOnce persists exactly when the counter reaches max(persist_every,1), so fewer than persist_every consuming reads are ever un-persisted) and, on the whole extracted read_next, that no position written to the read-offset index for the tail block the reader is already on lies behind what that reader consumed in memory, that peeks never write the index, and that the persist log only grows. Quantified over all cursor states, chains, writers and persist_every values.",
+    note="Decides the call-site half of C09 (what is written and when); that a written index survives the crash is C10's rename/fsync contract and is assumed here (WalIndex::set = ghost log). Batch-read persist sites and hydration after restart are not yet under contract. Lock elision (A-SEQ), Block::read contract assumed. The genuine defect found here (provisional (tail,0) persist => unbounded AtLeastOnce redelivery) is fixed by 3e0bf7e and natively replayed.",
+    technique="contract-based deductive verification (Verus/Z3) of the extracted whole function with a ghost persist log; native replay",
+    design="4/C09"),
+ "C02": dict(
+    level="proof",
+    text="On the whole extracted read_next, Verus proves the frame of a peek for all states: the persisted index (ghost log and store) is untouched, entry counts are unchanged, the logical cursor position (bytes of sealed blocks before it plus offset), tail fields and the AtLeastOnce counter are unchanged, the chain is never modified, and the only blocks a read may mark as consumed lie entirely before the cursor. For batch reads, the plan region marks blocks only when it holds the stateful guard.",
+    note="Covers read_next completely and the batch-read plan region's marking; the batch-read commit region (cursor commit only when checkpoint && stateful) and 'a peek returns what the next consuming read returns' are not yet contracts (the latter follows from determinism of the extracted code on an unchanged state, which is not stated as a lemma). A-SEQ, assumed callee contracts as in C15.",
+    technique="contract-based deductive verification (Verus/Z3): frame conditions on the extracted whole function",
+    design="4/C02"),
+ "C03": dict(
+    level="proof",
+    text="Verus proves on the extracted batch-read regions, for every budget 0..usize::MAX, every entry size and every cursor position: the parser never returns more than 2000 entries; total payload <= budget unless exactly one entry is returned (loop invariants over the real parse loop); the planner produces a non-empty plan whenever a sealed block holds bytes the cursor has not passed, and - using the byte-level model of the entry format - its first range starts at the cursor and contains the whole first unconsumed entry (single and double header peek); planned ranges are at most 1 GiB; no arithmetic overflow in plan or parse.",
+    note="Context W: bytes on disk are engine-written (packed blocks; rkyv decode returns the written metadata; read_size < 2^40). A-IO (positional reads inside the preallocated file are complete), A-ARITH (64-bit usize). The final step 'first range contains the first entry => parser returns >= 1 entry' (spine lemma across the io region) is not yet mechanised; the tail-only progress case is not under contract. Three genuine defects found here are fixed (budget 0: d45772d; overflow near usize::MAX: e20c15e; empty payloads: c656d4a) and natively replayed.",
+    technique="contract-based deductive verification (Verus/Z3) of mechanically cut statement regions with loop invariants and a byte-level format model; native replay",
+    design="4/C03"),
+ "C01": dict(
+    level="proof",
+    text="Verus proves the ordering skeleton of consuming reads on the real code: planned ranges follow chain order, one per block, inside the block, the tail last; the parser only looks at range k after every earlier range was consumed to the end of its block (no gap can be jumped) and returns every entry it counts; read_next keeps the cursor well-formed, never modifies the chain and terminates; checksum64 equals the FNV-1a specification for inputs of any length.",
+    note="This is the mechanism half of C01 (no skip / no reorder across ranges and blocks). Byte-identity of returned payloads to appended payloads needs the Block::write/read round-trip and the Writer units (not yet under contract) and the history lemma over the abstract log is not mechanised. Two genuine skip defects found here are fixed (ba1f615, e20c15e) and natively replayed; scenario family replay/core compares the real engine with the abstract log.",
+    technique="contract-based deductive verification (Verus/Z3) of extracted regions/functions; native replay",
+    design="4/C01"),
 }
 
 NOT_APPLICABLE = {
